@@ -6,11 +6,11 @@ import (
 	"verif/harness/ref"
 )
 
-func b(t *rapid.T, l string) bool         { return rapid.Bool().Draw(t, l) }
-func u8(t *rapid.T, l string) byte         { return rapid.Byte().Draw(t, l) }
+func b(t *rapid.T, l string) bool           { return rapid.Bool().Draw(t, l) }
+func u8(t *rapid.T, l string) byte          { return rapid.Byte().Draw(t, l) }
 func un(t *rapid.T, l string, max int) byte { return byte(rapid.IntRange(0, max).Draw(t, l)) }
-func u16(t *rapid.T, l string) uint16      { return rapid.Uint16().Draw(t, l) }
-func u32(t *rapid.T, l string) uint32      { return rapid.Uint32().Draw(t, l) }
+func u16(t *rapid.T, l string) uint16       { return rapid.Uint16().Draw(t, l) }
+func u32(t *rapid.T, l string) uint32       { return rapid.Uint32().Draw(t, l) }
 
 func arr4(t *rapid.T, l string) (a [4]byte) {
 	copy(a[:], rapid.SliceOfN(rapid.Byte(), 4, 4).Draw(t, l))
